@@ -6,18 +6,32 @@ open JF
 
 private def tm (q r : String) : Time Float := ⟨fl q, fl r⟩
 private def showT (t : Time Float) : String := s!"{bits t.q} {bits t.r}"
+private def showCmp (t u : Time Float) : String :=
+  joinSp [b01 (Time.eq t u), b01 (Time.lt t u), b01 (Time.gt t u), b01 (Time.le t u), b01 (Time.ge t u), b01 (Time.cLt t u)]
 
-def timeComp : Comp := Comp.pure fun
+private def timePure : List String → String
   | ["from_float", x] => showT (Time.fromFloat Ops.float (fl x))
   | ["add", q, r, d] => showT (Time.add Ops.float (tm q r) (fl d))
   | ["sub", q, r, q', r'] => bits (Time.sub (tm q r) (tm q' r'))
-  | ["cmp", q, r, q', r'] =>
-      let t := tm q r; let u := tm q' r'
-      joinSp [b01 (Time.eq t u), b01 (Time.lt t u), b01 (Time.gt t u), b01 (Time.le t u),
-              b01 (Time.ge t u), b01 (Time.cLt t u)]
+  | ["cmp", q, r, q', r'] => showCmp (tm q r) (tm q' r')
   | ["clock", delta, zf, k] => showT (Sampling.clock Ops.float (fl delta) (zf == "1") (nat! k))
   | ["end_time", x] => showT (Sampling.endTime Ops.float (fl x))
   | ["samples_before_end", delta, tend, zf, fuel] =>
       toString (Sampling.samplesBeforeEnd Ops.float (fl delta) (fl tend) (zf == "1") (nat! fuel) 0)
   | _ => "bad-op"
+
+private def z : Time Float := ⟨0.0, 0.0⟩
+
+/-- register sessions (`JF.Time.Regs`): eight registers; the stateless requests ignore them -/
+private def timeStep (s : Time.Regs Float) : List String → Time.Regs Float × String
+  | ["rnew", i, q, r] => let t := tm q r; (s.put (nat! i) t, showT t)
+  | ["rff", i, x] => let t := Time.fromFloat Ops.float (fl x); (s.put (nat! i) t, showT t)
+  | ["radd", i, j, d] => let t := Time.add Ops.float (s.get z (nat! j)) (fl d); (s.put (nat! i) t, showT t)
+  | ["rupd", i, j] => let s' := s.update z (nat! i) (nat! j); (s', showT (s'.get z (nat! i)))
+  | ["rcmp", i, j] => (s, showCmp (s.get z (nat! i)) (s.get z (nat! j)))
+  | ["rsub", i, j] => (s, bits (Time.sub (s.get z (nat! i)) (s.get z (nat! j))))
+  | ["rdump"] => (s, joinSp (s.map showT))
+  | a => (s, timePure a)
+
+def timeComp : Comp := ⟨Time.Regs Float, List.replicate 8 z, timeStep⟩
 end JF.Driver
